@@ -223,7 +223,7 @@ theorem trichotomy (q : ValQuirks) (hq : q.ordCalcFlag = false) (env : Env ν) (
     Bool.not_true, Bool.and_false, if_neg hn]
   cases o <;> decide
 
-/-- PARTIAL (the code today, flag `ordCalcFlag`): trichotomy holds when both numbers carry the same
+/-- PARTIAL (flag `ordCalcFlag`, the code before commit 1bf3c5b): trichotomy holds when both numbers carry the same
 `calculated` flag (two literals/variables/arithmetic results, or two `calc()` results). -/
 theorem trichotomy_partial (q : ValQuirks) (env : Env ν) (a b : V ν)
     (x : ν) (ux : Nat) (c : Bool) (y : ν) (uy : Nat)
@@ -268,13 +268,13 @@ theorem incomparable_is_error :
 example : (V.num one 0).asNumber = some (one, 0, true) ∧ (V.num (⟨2, 1⟩ : XRat) 0).asNumber = some (⟨2, 1⟩, 0, true) :=
   ⟨rfl, rfl⟩
 
-/-- REFUTATION (flag `ordCalcFlag`, the code today): `calc(1px) < 1px` and `calc(1px) == 1px` are
+/-- REFUTATION (flag `ordCalcFlag`, the code before commit 1bf3c5b): `calc(1px) < 1px` and `calc(1px) == 1px` are
 both true (and `1px > calc(1px)`): the derived ordering of `Value::Numeric(n, calculated)` falls
 back to the flag when the numbers are equal.  The specification gives `==` only. -/
 theorem calc_flag_breaks_trichotomy :
-    V.rel asis env0 .lt (.numAtomic one 1) (.num one 1) = .bool true
-    ∧ V.rel asis env0 .eq (.numAtomic one 1) (.num one 1) = .bool true
-    ∧ V.rel asis env0 .gt (.num one 1) (.numAtomic one 1) = .bool true
+    V.rel { ordCalcFlag := true } env0 .lt (.numAtomic one 1) (.num one 1) = .bool true
+    ∧ V.rel { ordCalcFlag := true } env0 .eq (.numAtomic one 1) (.num one 1) = .bool true
+    ∧ V.rel { ordCalcFlag := true } env0 .gt (.num one 1) (.numAtomic one 1) = .bool true
     ∧ V.rel Val.spec env0 .lt (.numAtomic one 1) (.num one 1) = .bool false
     ∧ V.rel Val.spec env0 .eq (.numAtomic one 1) (.num one 1) = .bool true := by
   decide +kernel
